@@ -286,3 +286,18 @@ class RaiseV:
 
     def __init__(self, name):
         self.name = name
+
+
+class SpecArr:
+    """array-valued specification term (application of an uninterpreted function): kept as the z3 term itself"""
+
+    __slots__ = ("term", "shape", "dtype")
+
+    def __init__(self, term, shape, dtype="int"):
+        self.term = term
+        self.shape = list(shape)
+        self.dtype = dtype
+
+    @property
+    def ndim(self):
+        return len(self.shape)
